@@ -41,6 +41,12 @@ func guard(o *sim.Outcome, what func() string, f func()) {
 			if !ok {
 				panic(r)
 			}
+			if strings.Contains(c.stderr, "csim driver:") {
+				// The driver aborted by its own hand (a request it considers
+				// malformed): a defect of this harness, never a verdict.
+				fmt.Fprintf(os.Stderr, "csim: harness trouble (no verdict): the driver refused a request while running %s\n%s\n", what(), c.stderr)
+				os.Exit(2)
+			}
 			class, key := "crash", "crash"
 			switch {
 			case strings.Contains(c.stderr, "AddressSanitizer"):
@@ -164,6 +170,9 @@ func suspName(s string) string {
 // ---- C03: memory safety and well-behaved statuses on any input ----
 
 func runC03(t *sim.Tape, opt sim.RunOpt) *sim.Outcome {
+	if opt.Mode == "images" {
+		return runC03Images(t, opt)
+	}
 	o := &sim.Outcome{}
 	st, err := drawStream(t, opt.Extra["repo"], 20000, true)
 	if err != nil {
@@ -293,6 +302,9 @@ func runDstMinimum(t *sim.Tape, opt sim.RunOpt, o *sim.Outcome) *sim.Outcome {
 }
 
 func runC05(t *sim.Tape, opt sim.RunOpt) *sim.Outcome {
+	if opt.Mode == "images" {
+		return runC05Images(t, opt)
+	}
 	o := &sim.Outcome{}
 	if opt.Mode == "dst_minimum" {
 		return runDstMinimum(t, opt, o)
@@ -382,6 +394,9 @@ func runC05(t *sim.Tape, opt sim.RunOpt) *sim.Outcome {
 func runC07(t *sim.Tape, opt sim.RunOpt) *sim.Outcome {
 	if opt.Mode == "hashers" {
 		return runC07Hashers(t, opt)
+	}
+	if opt.Mode == "images" {
+		return runC07Images(t, opt)
 	}
 	o := &sim.Outcome{}
 	st, err := drawStream(t, opt.Extra["repo"], 60000, false)
